@@ -122,10 +122,7 @@ def roundTrip (route : String) (bt : Nat) (t : Num) (raws : List Nat) (s o : Nat
         | some v => .ok (toAny v)
         | none => .ok .nil
     | v => match t with
-      -- unit pair: integer text, read back by strconv.ParseInt/ParseUint. fitcsv's `format` prints a
-      -- TypeInt64 value through `val.Uint64()`, which is the invalid sentinel for that type: "-1" (not a scaled
-      -- column, outside C12; reported to the owner of C19)
-      | .int .i64 => .ok (.int64 (2 ^ 64 - 1))
+      -- unit pair: integer text, read back by strconv.ParseInt/ParseUint
       | .int _ => .ok (toAny v)
       | _ => .error "n/a-text"
   | _, _ => .error "bad-op"
@@ -163,12 +160,12 @@ def pairInProfile (s o : Nat) : Bool :=
   isUnit s o || Fit.Gen.PA.triples.any fun t => t.2.1 == s && t.2.2 == o
 
 /-- the domain on which the property demands the identity: an integer target type, a profile pair,
-and for the 64-bit types a magnitude below 2^50 (see FitProps/C12.lean) -/
+and for the 64-bit types a magnitude of at most 2^49 (`C12_helpers_int64`) -/
 def inSpecDomain (bt : Nat) (t : Num) (raws : List Nat) (s o : Nat) : Bool :=
   match t, tgtOfBaseType bt with
   | .int ty, some (.int ty') =>
     ty == ty' && pairInProfile s o &&
-      (ty.bits ≤ 32 || raws.all fun r => (ty.toInt r).natAbs < 2 ^ 50)
+      (ty.bits ≤ 32 || raws.all fun r => (ty.toInt r).natAbs ≤ 2 ^ 49)
   | _, _ => false
 
 def isSliceRoute (r : String) : Bool := r == "vals" || r == "gens" || r == "anys"
